@@ -92,6 +92,42 @@ CHECKS.update({
         ref='6/C15'),
 })
 
+CHECKS.update({
+    'C01': dict(
+        text='Wire.tla specifies the on-disk format (Enc) and the recursive-descent decoder (Dec, which only knows what it reads); TLC checks '
+             'DecodeExact, CountsRight, RoundTrip (bytes hashed into the txid = witness-stripped serialisation) and MarkerUnambiguous on '
+             'every block shape of the universe. Every shape is concretised: the real read_block must perform exactly the primitive reads '
+             'TLC derived and produce sha256d hashes of header / stripped tx; chains of the shapes are dumped by csvdump and compared byte for '
+             'byte (4 files + completion totals), plus boundary sizes 0xfc/0xfd/0xffff/0x10000, counts of 253 and 65536, 8 coins, --verify.',
+        tech='TLA+ Wire.tla + TLC, read-by-read conformance of the real decoder, byte-exact replay through csvdump',
+        ref='6/C01'),
+    'C05': dict(
+        text='Script.tla gives type, address kind and payload item for every script of a bounded universe (all item sequences up to length 3, '
+             'one-item neighbourhoods of every template, witness version x length, m-of-n shapes); TLC checks totality, mutual exclusion of '
+             'the template rules, address-only-from-a-push, truncation and evaluates the verdicts. Every script is given random payloads and '
+             'run through the real eval_from_bytes on bitcoin and testnet3: type, address string (rebuilt by trusted encoders, decoded back) '
+             'and OP_RETURN text must match; the reference classifier validated on the universe then judges random bytes up to 100 KB.',
+        tech='TLA+ Script.tla + TLC (verdict per script), replay into script::eval_from_bytes, end-to-end spot checks',
+        ref='6/C05'),
+    'C06': dict(
+        text='Same specification (ForkVerdict: tokenizer machine over items - push rules, zero-length pushes, NOP class dropped, truncated '
+             'push = unrecognised - then templates over tokens) replayed on the six fork coins with their published version bytes.',
+        tech='TLA+ Script.tla + TLC, replay into script::eval_from_bytes on 6 coins',
+        ref='6/C06'),
+    'C12': dict(
+        text='Wire.tla: EnterAuxPow iff the coin has an activation version and the header version reaches it; TLC checks AuxTransparent, '
+             'NoAuxElsewhere and Misframed for versions below/at/above x section shapes x coins; real decoder read-by-read; csvdump with '
+             '--verify over mixed chains with branch lengths up to 253 and negative controls on other coins.',
+        tech='TLA+ Wire.tla + TLC, read-by-read conformance, replay through csvdump --verify',
+        ref='6/C12'),
+    'C16': dict(
+        text='Payload item per script from Script.tla (TLC), chain order from BlockParser.tla; real chains mixing OP_RETURN outputs of every '
+             'push form and payload class with all other script types are run through `opreturn` on 8 coins with ranges; stdout minus log '
+             'lines compared byte for byte (scripts outside the statement are not judged).',
+        tech='TLA+ Script.tla/BlockParser.tla + TLC, replay through the opreturn callback',
+        ref='6/C16'),
+})
+
 NOT_YET = 'check under construction in this session; will be claimed once its TLC model and conformance leg run green'
 
 
